@@ -5,10 +5,11 @@
    history: each operation with what the harness observed on the real code
    AFTER it — panic or not, the file's tokens before formatting (hook
    VerifFileTokens) and, recursively through Blocks()/Body(), the answers of
-   the readers Attributes()/GetAttribute/Expr, Type(), Labels().
+   the readers Attributes()/GetAttribute/Expr, Type(), Labels().  The initial
+   tree must also pass the executable well-formedness check.
    Executed with vm_compute from generated case files. *)
 From Coq Require Import String Ascii.
-From HclV Require Import Base.Prelude Gen.TokenTypes Write.Format Write.Tree.
+From HclV Require Import Base.Prelude Gen.TokenTypes Write.Format Write.Tree Write.TreeSpec.
 Open Scope Z_scope.
 Open Scope list_scope.
 
@@ -162,8 +163,12 @@ Record tcase := mkCase {
   c_hist : list (op * ostep);
   c_sum : list Z }.               (* checksum mode: fp of all observations; [] in exact mode *)
 
+(* a case passes when (a) the initial tree dumped from the Go heap satisfies the
+   hypothesis WF of the history theorems (TreeSpec.wf_state_b, sound by
+   TreeProofs.wf_state_b_sound) and (b) the model reproduces every observation *)
 Definition check_tree_case (c : tcase) : bool :=
   let u := mk_unesc (c_unesc c) in
+  wf_state_b (c_init c) &&
   match c_sum c with
   | [] => obs_matches u (c_init c) (c_obs0 c) && check_steps u (c_init c) (c_hist c)
   | ck =>
